@@ -670,7 +670,7 @@ where
 
     #[inline]
     fn frac_pi_2() -> Self {
-        Self::from_re(<T as FloatConst>::FRAC_PI_4())
+        Self::from_re(<T as FloatConst>::FRAC_PI_2())
     }
 
     #[inline]
